@@ -199,3 +199,14 @@ example : mergeAll cfg (.plain ['a', '"']) [.html ['x']] = .html ['a', '&', 'q',
   decide +kernel
 
 end HtmlVerif.C03
+
+namespace HtmlVerif.C03
+open HtmlVerif
+
+/-- the statement in its own words for a plain attribute value: each of & < > " ' CR LF appears as a character
+    reference that decodes to it, every other character unchanged (the predicate evaluated on the real output) -/
+theorem C03_statement (s : Str) : validEscape attrSpecials s (emitAttrVal cfg (.plain s)) = true := by
+  show validEscape attrSpecials s (htmlEscapeT Generated.attrTbl s) = true
+  rw [C03_esc_attr_as_written]; exact validEscape_attr s
+
+end HtmlVerif.C03
